@@ -49,7 +49,10 @@ class Terminal(Symbol):
         return '%s(%r, %r)' % (type(self).__name__, self.name, self.filter_out)
 
     def renamed(self, f):
-        return type(self)(f(self.name), self.filter_out)
+        # Used on the named terminals of imported definitions: whether such a terminal is filtered
+        # follows from its name, so it has to follow the new name (%import m._SEP -> SEMI)
+        name = f(self.name)
+        return type(self)(name, name.startswith('_'))
 
 
 class NonTerminal(Symbol):
